@@ -51,14 +51,19 @@ def sweep(rng, n):
 oracle_search = propgen.budgeted([sweep])
 
 
+_def_at = propgen.definitional_oracle_at(['seg_cluster_q', 'index_labels', 'seg_entropy_skel'], 'equals the textbook formula on the contingency table')
+
+
 def oracle_at(unit, case, impl):
     if unit == 'seg_cluster_q':
         from harness.oracles import segment_cluster as O
         try:
-            return O.check_case(_S(), case)
+            f = O.check_case(_S(), case)
+            if f:
+                return f
         except Exception:
-            return None
-    return None
+            pass
+    return _def_at(unit, case, impl)
 
 
 def diagnose(b):
